@@ -497,17 +497,54 @@ def c_backend_rule(ck, mod, ks, label):
     mem_state = len(sphi) == 0      # state kept in memory instead of SSA values
     back0 = [p for p in paths if p.end[0] == "backedge"]
     down = [I for I, ini in others if ini == irx.Lf.s(("n", 1))]
-    up = [I for I, ini in others if ini is not None and not irx.is_word(ini) and ini.const() == 0 and back0
-          and all(any(cc[0] == "ult" and cc[2] and cc[1] == irx.Lf({("hd", I.id): 1, ("n", 1): -1}) for cc in p.conds)
-                  and p.env.get(("back", I.id)) == irx.Lf({("hd", I.id): 1, 1: 1}) for p in back0)]
+
+    def up_form(I):
+        """an up-counting counter: on every back edge the path carries `counter + t < B` (B: the round count, or a quotient of it) and hands on
+        counter + J.  t = 0: tested at the head before the rounds (`for (i = 0; i < B; ++i)`); t = J: tested at the bottom after them
+        (`do {..} while (++i < B)`).  -> (B, t, J) or None"""
+        hd_ = ("hd", I.id)
+        got = None
+        for p in back0:
+            bk = p.env.get(("back", I.id))
+            if bk is None or irx.is_word(bk):
+                return None
+            J_ = bk.add(irx.Lf.s(hd_), -1).const()
+            tests = [cc for cc in p.conds if cc[0] == "ult" and cc[2] and not irx.is_word(cc[1]) and cc[1].get(hd_) == 1]
+            if not J_ or J_ < 1 or not tests:
+                return None
+            d_ = irx.Lf(tests[-1][1])
+            del d_[hd_]
+            t_ = d_.pop(1, 0)
+            B_ = irx.Lf({k_: -v_ for k_, v_ in d_.items()})
+            if not B_ or any(v_ != 1 for v_ in B_.values()) or any(isinstance(k_, tuple) and k_[0] == "hd" for k_ in B_) or t_ not in (0, J_):
+                return None
+            if got is not None and got != (repr(B_), t_, J_):
+                return None
+            got = (repr(B_), t_, J_)
+            Bv = B_
+        return (Bv, got[1], got[2]) if got else None
+    up = [(I, up_form(I)) for I, ini in others if ini is not None and not irx.is_word(ini) and ini.const() == 0 and back0]
+    up = [(I, u_) for I, u_ in up if u_ is not None]
     counting_up = False
+    upB, upT, upJ, upScale = None, 0, 1, 1
     if down:
         cphi = down[0]
     elif len(up) == 1:
-        # `for (done = 0; done < rounds; ++done)`: the counter runs up to the round count in steps of one, so it equals the round count when the
-        # head test fails (it starts at 0 <= rounds and is increased only below rounds); rounds left = rounds - done
-        cphi = up[0]
+        # `for (done = 0; done < B; ++done)`: the counter runs up to the bound in steps that never pass it, so it equals the bound when the
+        # head test fails; `do {..} while (++done < B)`: entered only with B >= 1 (checked), so counter < B holds at the head and the first
+        # failing test after t rounds says counter + t == B
+        cphi = up[0][0]
+        upB, upT, upJ = up[0][1]
         counting_up = True
+        # rounds per count: 1 when the bound is the round count, c when it is rounds / c
+        bk_ = [k_ for k_ in upB if k_ != 1]
+        if bk_ == [("n", 1)]:
+            upScale = 1
+        else:
+            qs_ = [(sa_, cb_) for p_ in back0 for (q_, r_, sa_, cb_) in p_.divs.values() if [q_] == bk_]
+            if not qs_ or qs_[0][0] != irx.Lf.s(("n", 1)) or not 1 <= qs_[0][1] <= 8:
+                raise Broken("%s: the round loop counts up to %s, which is neither the round count nor a quotient of it: unrecognised shape" % (fname, upB))
+            upScale = qs_[0][1]
     if (len(sphi) not in (0, 4)) or cphi is None:
         raise Broken("%s: cannot identify the loop-carried state words / round counter: unrecognised shape" % fname)
     aux = [(I, ini) for I, ini in others if I is not cphi]
@@ -526,10 +563,16 @@ def c_backend_rule(ck, mod, ks, label):
     ck.ob(not [e for e in pre[0].events if e[0] == "out"], "R-C05-EFFECT", fname, "no-store-before-loop@c32/%s" % ks, "nothing is stored before the loop", "stores before the loop", where=where)
     S = [gf2.sym_word(("hdw", byidx), 32) for byidx in sorted(sphi, key=lambda k: sphi[k])] if not mem_state else None
     rem = ("hd", cphi.id)
-    xeq = {hdr: (cphi.id, irx.Lf.s(("n", 1)))} if counting_up else None
+    xeq = {hdr: (cphi.id, upB)} if (counting_up and upT == 0) else None
+    if counting_up and upT:
+        lo_, _hi, ex_ = ex._range(pre[0], upB)
+        if not (lo_ >= 1 or 0 in ex_):
+            raise Broken("%s: a bottom-tested round loop is entered without a test that the count is not 0: unrecognised shape" % fname)
     # a loop-carried key position (index of the next key word, wrapping at the key length): its finite orbit is enumerated, the iteration
     # is evaluated once per value with the key schedule of the specification started at that word
     runs = []
+    seenj_pre = set()
+    ex_v = ex
     incomplete = False
     nviol0 = len(ck.violations)
     if aux:
@@ -555,10 +598,21 @@ def c_backend_rule(ck, mod, ks, label):
                     todo.append(b_)
     elif counting_up:
         ex_v = irx.Exec(f, handler, exit_eq=xeq)
-        runs.append((0, [p for p in ex_v.run() if p.blocks and p.blocks[0] == hdr]))
+        allp = ex_v.run()
+        runs.append((0, [p for p in allp if p.blocks and p.blocks[0] == hdr]))
+        # a return in front of the loop (`if (rounds == 0) return;`): no rounds, the state must be what it was
+        for p in allp:
+            if p.end[0] == "ret" and p.blocks and p.blocks[0] == 0:
+                outs0 = {(e[1], e[2]): list(e[3]) for e in p.events if e[0] == "out"}
+                same = all(k_[0] == st and 0 <= k_[1] < 16 and v_ == gf2.sym_word(("mem", st, k_[1]), 8) for k_, v_ in outs0.items())
+                okz = ex_v.subst(p, irx.Lf.s(("n", 1))).const() == 0
+                ck.ob(okz and same, "R-C05-STEP", fname, "return-before-loop@c32/%s" % ks, "the return in front of the loop is taken for 0 rounds only and leaves the state as it was",
+                      "a return in front of the round loop is taken with rounds = %s / changes the state" % ex_v.subst(p, irx.Lf.s(("n", 1))), where=where)
+                if okz and same:
+                    seenj_pre.add(0)
     else:
         runs.append((0, [p for p in paths if p.end[0] != "loop-entry"]))
-    seenj = set()
+    seenj = set(seenj_pre)
     for koff, rpaths in runs:
       tagk = "" if not aux else "{key position %d}" % koff
       for p in rpaths:
@@ -576,7 +630,7 @@ def c_backend_rule(ck, mod, ks, label):
         if p.end[0] == "backedge":
             back = p.env.get(("back", cphi.id))
             d = back.add(irx.Lf.s(rem), -1).const() if not irx.is_word(back) else None
-            J = (d if counting_up else -d) if d is not None else None
+            J = (d * upScale if counting_up else -d) if d is not None else None
             ck.ob(J is not None and J > 0, "R-C05-SCHED", fname, "iteration-decrement@c32/%s%s" % (ks, tagk), "one loop iteration moves the round counter by %s towards its end" % J,
                   "the round counter is not moved by a positive constant per iteration (%s)" % (back,), where=where)
             if not J or J > 8:
@@ -602,11 +656,27 @@ def c_backend_rule(ck, mod, ks, label):
             continue
         if p.end[0] != "ret":
             raise Broken("%s: path ends by %s" % (fname, p.end[0]))
-        if counting_up:
-            # the head test failed with the counter at the round count (exit value established above): no round left
-            if not any(cc[0] == "ult" and not cc[2] and cc[1] == irx.Lf({rem: 1, ("n", 1): -1}) for cc in p.conds):
+        if counting_up and upT == 0:
+            # the head test failed with the counter at its bound (exit value established above): what is left is the round count minus the
+            # rounds the full iterations did - 0 for `i < rounds`, rounds % J for `i < rounds / J` (then fixed by the path's test of it)
+            if not any(cc[0] == "ult" and not cc[2] and cc[1] == irx.Lf({rem: 1}).add(upB, -1) for cc in p.conds):
                 raise Broken("%s: a path leaves the up-counting loop other than through its head test: unrecognised shape" % fname)
-            j = 0
+            left_ = ex_v.subst(p, ex_v._divnorm(p, irx.Lf.s(("n", 1)).add(irx.Lf({k_: v_ * upScale for k_, v_ in upB.items()}), -1)))
+            j = left_.const()
+            if j is None:
+                lo_, hi_, ex_ = ex_v._range(p, left_) if (left_ and not left_.get(1)) else (0, None, set())
+                cand = [v_ for v_ in range(lo_, min(hi_, lo_ + 16) + 1) if v_ not in ex_] if hi_ is not None else []
+                j = cand[0] if (len(cand) == 1 and hi_ <= lo_ + 16) else None
+        elif counting_up:
+            # bottom-tested: the first failing test `counter + t < B` (with counter < B at the head) says t rounds were left at the head
+            fails = [cc for cc in p.conds if cc[0] == "ult" and not cc[2] and not irx.is_word(cc[1]) and cc[1].get(rem) == 1]
+            j = None
+            if fails:
+                d_ = irx.Lf(fails[0][1])
+                del d_[rem]
+                t_ = d_.pop(1, 0)
+                if irx.Lf({k_: -v_ for k_, v_ in d_.items()}) == upB and t_ >= 1 and upScale == 1:
+                    j = t_
         else:
             j = p.eqs.get(rem)
         if j is None:
